@@ -49,7 +49,7 @@ def expand(scratch, specs, name="corpus_x", target=None):
     rc, out, err, dt = run(["cargo", "rustc", "--offline", "--quiet", "--", "-Zunpretty=expanded"], cwd=d,
                            env={"RUSTC_BOOTSTRAP": "1", "CARGO_TARGET_DIR": target}, timeout=1800)
     if rc != 0 or not out.strip():
-        raise ExpandError(err[-6000:])
+        raise ExpandError(err[-2000000:])
     path = os.path.join(scratch, name + ".expanded.rs")
     with open(path, "w") as f:
         f.write(out)
@@ -73,7 +73,7 @@ def vx_extract(expanded_path, overlay=None, scratch=None):
     return json.loads(out)
 
 
-def expand_isolating(scratch, specs, name="corpus_x", target=None, rounds=4):
+def expand_isolating(scratch, specs, name="corpus_x", target=None, rounds=8):
     """expand; corpus modules the macro rejects are dropped and reported: (path, live specs, {mod: message})"""
     import re
     live = list(specs)
